@@ -120,13 +120,21 @@ func TestGovcPagerLinksReplay(t *testing.T) {
 		{"javascript-last-page", "http://example.com/art?page=3", `<a href="javascript:go(1)">1</a> <a href="javascript:go(2)">2</a> 3`},
 		{"javascript-prev", "http://example.com/art?page=3", `<a href="/art?page=1">1</a> <a href="javascript:go(2)">2</a> 3 <a href="/art?page=4">4</a>`},
 	}
+	evals, nontrivial := 0, 0
 	for _, c := range cases {
 		src := govcPagerDoc(c.pager)
 		page, _ := nurl.Parse(c.page)
 		for _, algo := range []PaginationAlgo{PrevNext, PageNumber} {
 			next, prev, ok := govcRunPager(t, src, c.page, algo)
+			evals++
 			if !ok {
 				continue
+			}
+			if next != "" || prev != "" {
+				nontrivial++ // the algorithm actually returned a link for this hostile pager
+			}
+			if evals <= 3 {
+				fmt.Printf("GOVC-SAMPLE case %s algo %d page %s pager %s -> next=%q prev=%q\n", c.key, algo, c.page, c.pager, next, prev)
 			}
 			for what, link := range map[string]string{"NextPage": next, "PrevPage": prev} {
 				if msg := govcCheckRealLink(what, link, src, page); msg != "" {
@@ -135,6 +143,7 @@ func TestGovcPagerLinksReplay(t *testing.T) {
 			}
 		}
 	}
+	fmt.Printf("GOVC-CASES evaluations=%d distinct_nontrivial=%d rule=%s\n", evals, nontrivial, "hand-written hostile pagers x {PrevNext,PageNumber}; distinct by construction; non-trivial = a pagination link was returned")
 }
 
 // ---- C17 ----
@@ -151,9 +160,27 @@ var govcFamilies = []govcFamily{
 	{"path-trailing-slash", func(k int) string { return fmt.Sprintf("http://example.com/article/page/%d/", k) }},
 	{"file-suffix", func(k int) string { return fmt.Sprintf("http://example.com/news/article-%d.html", k) }},
 	{"file-suffix-underscore", func(k int) string { return fmt.Sprintf("http://example.com/news/article_%d.html", k) }},
+	{"path-inner", func(k int) string { return fmt.Sprintf("http://example.com/foo/%d/item", k) }},
+	{"file-suffix-plain", func(k int) string { return fmt.Sprintf("http://example.com/foo/story-%d.html", k) }},
+}
+
+// markups around the Prev/Next anchors: with and without a page-ish class name
+var govcPagerWraps = []struct{ name, open, close string }{
+	{"pagination-div", `<div class="pagination">`, `</div>`},
+	{"plain-div", `<div>`, `</div>`},
+	{"plain-p", `<p>`, `</p>`},
+}
+
+func govcPagerDocWrapped(wrapOpen, pager, wrapClose string) string {
+	return `<html><head><title>Article</title></head><body><div id="content">` + govcPagerFiller +
+		`</div>` + wrapOpen + pager + wrapClose + `</body></html>`
 }
 
 func TestGovcConventionalPagerReplay(t *testing.T) {
+	evals, nontrivial := 0, 0
+	defer func() {
+		fmt.Printf("GOVC-CASES evaluations=%d distinct_nontrivial=%d rule=%s\n", evals, nontrivial, "every (URL family, N in 2..12, k in 1..N) x {numbered pager with PageNumber, Prev/Next and Previous/Next anchors with PrevNext}; distinct by construction; non-trivial = a non-empty link is expected and was compared")
+	}()
 	for _, fam := range govcFamilies {
 		for n := 2; n <= 12; n++ {
 			for k := 1; k <= n; k++ {
@@ -175,6 +202,13 @@ func TestGovcConventionalPagerReplay(t *testing.T) {
 					wantPrev = strings.TrimSuffix(fam.url(k-1), "/")
 				}
 				next, prev, ok := govcRunPager(t, src, fam.url(k), PageNumber)
+				evals++
+				if wantNext != "" || wantPrev != "" {
+					nontrivial++
+				}
+				if evals <= 2 {
+					fmt.Printf("GOVC-SAMPLE numbered pager family %s N=%d k=%d page %s pager %s -> next=%q prev=%q\n", fam.name, n, k, fam.url(k), sb.String(), next, prev)
+				}
 				if !ok {
 					t.Errorf("GOVC-FAIL number/%s/N%d/k%d :: expected a result, the call failed", fam.name, n, k)
 					continue
@@ -186,26 +220,32 @@ func TestGovcConventionalPagerReplay(t *testing.T) {
 					t.Errorf("GOVC-FAIL number/%s/N%d/k%d/prev :: PrevPage %q, expected %q", fam.name, n, k, prev, wantPrev)
 				}
 
-				// the labelled pager: Prev / Next anchors pointing to k-1 / k+1
-				for _, prevLabel := range []string{"Prev", "Previous"} {
-					var lb strings.Builder
-					if k > 1 {
-						fmt.Fprintf(&lb, `<a href="%s">%s</a> `, fam.url(k-1), prevLabel)
-					}
-					if k < n {
-						fmt.Fprintf(&lb, `<a href="%s">Next</a>`, fam.url(k+1))
-					}
-					lsrc := govcPagerDoc(lb.String())
-					lnext, lprev, ok := govcRunPager(t, lsrc, fam.url(k), PrevNext)
-					if !ok {
-						t.Errorf("GOVC-FAIL prevnext/%s/N%d/k%d :: expected a result, the call failed", fam.name, n, k)
-						continue
-					}
-					if lnext != wantNext {
-						t.Errorf("GOVC-FAIL prevnext/%s/N%d/k%d/%s/next :: NextPage %q, expected %q", fam.name, n, k, prevLabel, lnext, wantNext)
-					}
-					if lprev != wantPrev {
-						t.Errorf("GOVC-FAIL prevnext/%s/N%d/k%d/%s/prev :: PrevPage %q, expected %q", fam.name, n, k, prevLabel, lprev, wantPrev)
+				// the labelled pager: Prev / Next anchors pointing to k-1 / k+1, in several markups
+				for _, wrap := range govcPagerWraps {
+					for _, prevLabel := range []string{"Prev", "Previous"} {
+						var lb strings.Builder
+						if k > 1 {
+							fmt.Fprintf(&lb, `<a href="%s">%s</a> `, fam.url(k-1), prevLabel)
+						}
+						if k < n {
+							fmt.Fprintf(&lb, `<a href="%s">Next</a>`, fam.url(k+1))
+						}
+						lsrc := govcPagerDocWrapped(wrap.open, lb.String(), wrap.close)
+						lnext, lprev, ok := govcRunPager(t, lsrc, fam.url(k), PrevNext)
+						evals++
+						if wantNext != "" || wantPrev != "" {
+							nontrivial++
+						}
+						if !ok {
+							t.Errorf("GOVC-FAIL prevnext/%s/%s/N%d/k%d :: expected a result, the call failed", fam.name, wrap.name, n, k)
+							continue
+						}
+						if lnext != wantNext {
+							t.Errorf("GOVC-FAIL prevnext/%s/%s/N%d/k%d/%s/next :: NextPage %q, expected %q", fam.name, wrap.name, n, k, prevLabel, lnext, wantNext)
+						}
+						if lprev != wantPrev {
+							t.Errorf("GOVC-FAIL prevnext/%s/%s/N%d/k%d/%s/prev :: PrevPage %q, expected %q", fam.name, wrap.name, n, k, prevLabel, lprev, wantPrev)
+						}
 					}
 				}
 			}
